@@ -1,0 +1,155 @@
+//go:build verif
+
+// C17 contracts for package dtlshandshake (comment-only; read by /verif/vc).
+package dtlshandshake
+
+// ASSUMPTIONS (reported): the flight parser / generator function values obtained from
+// flight12.getFlightParser / GetGenerator (and their flight13 twins) are the library's own flight
+// handlers; they write handshake state, the handshake cache, protocol messages and byte buffers,
+// never the FSM's own bookkeeping or the configuration. The session-store callbacks have no effect
+// on program state.
+//@ assume-pure ret.flight12.getFlightParser#0 writes github.com/pion/dtls/v3/internal/state. github.com/pion/dtls/v3/internal/flight. github.com/pion/dtls/v3/internal/negotiation. github.com/pion/dtls/v3/internal/ciphersuite. github.com/pion/dtls/v3/pkg/ uint8 []uint8 $alloc
+//@ assume-pure ret.flight12.GetGenerator#0 writes github.com/pion/dtls/v3/internal/state. github.com/pion/dtls/v3/internal/flight. github.com/pion/dtls/v3/internal/negotiation. github.com/pion/dtls/v3/internal/ciphersuite. github.com/pion/dtls/v3/pkg/ uint8 []uint8 $alloc
+//@ assume-pure ret.flight13.getFlightParser#0 writes github.com/pion/dtls/v3/internal/state. github.com/pion/dtls/v3/internal/flight. github.com/pion/dtls/v3/internal/negotiation. github.com/pion/dtls/v3/internal/ciphersuite. github.com/pion/dtls/v3/pkg/ uint8 []uint8 $alloc
+//@ assume-pure ret.flight13.GetGenerator#0 writes github.com/pion/dtls/v3/internal/state. github.com/pion/dtls/v3/internal/flight. github.com/pion/dtls/v3/internal/negotiation. github.com/pion/dtls/v3/internal/ciphersuite. github.com/pion/dtls/v3/pkg/ uint8 []uint8 $alloc
+//@ assume-pure HandshakeConfig.DelSession
+
+// The FSM's Conn is the library's own adapter (dtls.handshakeConn, the only implementation).
+//@ define ownConn(c) typeIs(c, "github.com/pion/dtls/v3.handshakeConn")
+
+//@ func fsm12.finish
+//@ watch Conn.WritePackets recv:Conn.RecvHandshake
+//@ requires args: s != nil && s.state != nil && s.state.Common != nil && ownConn(c) && !isNil(ctx)
+//@ ensures client-never-resends: old(s.state.Common.IsClient) ==> result0 != StateSending
+//@ ensures outcomes: result0 == StateFinished || result0 == StateSending || result0 == StateErrored
+//@ ensures sends-nothing-itself: !called("Conn.WritePackets")
+//@ ensures server-resends-only-after-receive: result0 == StateSending ==> called("recv:Conn.RecvHandshake") && !old(s.state.Common.IsClient)
+//@ ensures one-event-per-step: ncalls("recv:Conn.RecvHandshake") <= 1
+//@ end
+
+// SENDING: one WritePackets call for the buffered flight, then WAITING (or FINISHED after the last
+// flight). No loop, no second send.
+
+//@ func fsm12.send
+//@ watch Conn.WritePackets
+//@ requires args: s != nil && ownConn(c) && !isNil(ctx)
+//@ ensures sends-once: ncalls("Conn.WritePackets") == 1
+//@ ensures outcomes: result0 == StateWaiting || result0 == StateFinished || result0 == StateErrored
+//@ ensures write-error-stops: retErr("Conn.WritePackets", 1) != nil ==> result0 == StateErrored
+//@ ensures interval-untouched: s.retransmitInterval == old(s.retransmitInterval) && s.retransmit == old(s.retransmit)
+//@ end
+
+// PREPARING: the retransmit flag of the buffered flight is the one GetGenerator reports for the
+// current flight, so a cookie request (Flight2) is never put on the timer.
+
+//@ func fsm12.prepare
+//@ watch GetGenerator Conn.WritePackets
+//@ requires args: s != nil && s.state != nil && s.state.Common != nil && s.cfg != nil && !isNil(s.cfg.Log) && ownConn(conn) && !isNil(ctx)
+//@ ensures flag-from-generator: result0 == StateSending ==> s.retransmit == retBool("GetGenerator", 1)
+//@ ensures cookie-request-not-on-timer: result0 == StateSending && old(s.currentFlight) == dtlsflight12.Flight2 ==> !s.retransmit
+//@ ensures sends-nothing-itself: !called("Conn.WritePackets")
+//@ ensures outcomes: result0 == StateSending || result0 == StateErrored
+//@ ensures interval-untouched: s.retransmitInterval == old(s.retransmitInterval)
+//@ end
+
+// WAITING (RFC 6347 4.2.4): the flight is re-sent only when the retransmit timer fires, through
+// handleRetransmitTimeout (which applies the backoff law and refuses non-retransmittable flights);
+// a received event never leads to SENDING directly. The interval is only ever reset to the
+// configured initial value or changed by the timer law.
+
+//@ define ivOK(x) (x > 0 && x <= 4611686018427387903)
+
+//@ func fsm12.wait
+//@ watch handleRetransmitTimeout handleWaitCancellation Parse Conn.WritePackets recv:Conn.RecvHandshake
+// (The channel returned by the interface call conn.RecvHandshake() has no stable source-level name;
+// the engine calls it value.t3 in wait and value.t0 in finish.)
+//@ define lastEvent() retAs("recv:Conn.RecvHandshake", 0, RecvHandshakeState{})
+//@ requires args: s != nil && s.state != nil && s.state.Common != nil && s.cfg != nil && !isNil(s.cfg.Log) && ownConn(conn) && !isNil(ctx)
+//@ requires interval-range: ivOK(s.retransmitInterval) && ivOK(s.cfg.InitialRetransmitInterval)
+//@ ensures resend-only-by-timer: result0 == StateSending ==> called("handleRetransmitTimeout") && old(s.retransmit)
+//@ ensures non-retransmittable-never-resent: !old(s.retransmit) ==> result0 != StateSending
+//@ ensures silence-doubles: result0 == StateSending && !called("Parse") && !s.cfg.DisableRetransmitBackoff ==> s.retransmitInterval == min(2*old(s.retransmitInterval), 60000000000)
+//@ ensures silence-constant-without-backoff: result0 == StateSending && !called("Parse") && s.cfg.DisableRetransmitBackoff ==> s.retransmitInterval == min(old(s.retransmitInterval), 60000000000)
+//@ ensures timer-without-resend-keeps-interval: result0 == StateWaiting ==> called("handleRetransmitTimeout") && !old(s.retransmit)
+//@ ensures no-event-no-reset: result0 == StateWaiting && !called("Parse") ==> s.retransmitInterval == old(s.retransmitInterval)
+// (Re-add once event counters are bounded by the engine - today ncalls can wrap after a loop havoc:
+//   ensures retransmitted-event-keeps-interval: ncalls("recv:Conn.RecvHandshake") == 1 && lastEvent().IsRetransmit && !called("handleRetransmitTimeout") && !called("handleWaitCancellation") ==> s.retransmitInterval == old(s.retransmitInterval)
+//  with the loop invariant  ncalls == 0 ==> interval unchanged,  ncalls == 1 ==> first-event law.)
+//@ ensures interval-changes-only-on-event: !called("recv:Conn.RecvHandshake") && !called("handleRetransmitTimeout") && !called("handleWaitCancellation") ==> s.retransmitInterval == old(s.retransmitInterval)
+//@ ensures new-data-restores-initial: called("recv:Conn.RecvHandshake") && !lastEvent().IsRetransmit && !called("handleRetransmitTimeout") && !called("handleWaitCancellation") ==> s.retransmitInterval == s.cfg.InitialRetransmitInterval
+//@ ensures sends-nothing-itself: !called("Conn.WritePackets")
+//@ ensures progress-needs-event: (result0 == StatePreparing || result0 == StateFinished) ==> called("Parse")
+//@ ensures interval-stays-in-range: result0 != StateErrored ==> s.retransmitInterval > 0
+//@ loop #1: frame: s.cfg == old(s.cfg) && s.cfg != nil && s.state != nil && !isNil(s.cfg.Log) && s.retransmit == old(s.retransmit)
+//@ loop #1: config-kept: s.cfg.InitialRetransmitInterval == old(s.cfg.InitialRetransmitInterval) && s.cfg.DisableRetransmitBackoff == old(s.cfg.DisableRetransmitBackoff)
+//@ loop #1: interval-initial-or-unchanged: s.retransmitInterval == old(s.retransmitInterval) || s.retransmitInterval == s.cfg.InitialRetransmitInterval
+//@ loop #1: no-event-no-reset: !called("Parse") ==> s.retransmitInterval == old(s.retransmitInterval)
+//@ loop #1: no-event-yet: !called("recv:Conn.RecvHandshake") ==> s.retransmitInterval == old(s.retransmitInterval) && !called("Parse")
+//@ loop #1: last-event-law: called("recv:Conn.RecvHandshake") && !lastEvent().IsRetransmit ==> s.retransmitInterval == s.cfg.InitialRetransmitInterval
+//@ loop #1: timer-not-yet: !called("handleRetransmitTimeout") && !called("handleWaitCancellation") && !called("Conn.WritePackets")
+//@ end
+
+// DTLS 1.3 (RFC 9147 5.8): after a received event the current flight is re-sent only for a cause -
+// an empty ACK, partial ACK progress, or the peer's retransmission - and only while the flight is
+// still retransmittable; the backoff law is handleRetransmitTimeout's. A fully acknowledged flight
+// stops the timer.
+
+//@ func fsm13.transitionAfterACK
+//@ watch handleRetransmitTimeout
+//@ requires args: s != nil && s.cfg != nil
+//@ requires interval-range: ivOK(s.retransmitInterval)
+//@ ensures resend-has-cause: result0.state == StateSending ==> result.Empty || len(result.Messages) != 0 || peerRetransmit
+//@ ensures resend-only-if-retransmittable: result0.state == StateSending ==> old(s.retransmit) && called("handleRetransmitTimeout")
+//@ ensures no-cause-no-resend: !result.Empty && len(result.Messages) == 0 && !peerRetransmit ==> result0.state == StateWaiting && s.retransmitInterval == old(s.retransmitInterval) && !called("handleRetransmitTimeout")
+//@ ensures fully-acked-stops-timer: len(result.Messages) != 0 && len(old(s.flightACK.pending)) == 0 ==> !s.retransmit && result0.state != StateSending && s.retransmitInterval == old(s.retransmitInterval)
+//@ ensures backoff-doubles: result0.state == StateSending && !s.cfg.DisableRetransmitBackoff ==> s.retransmitInterval == min(2*old(s.retransmitInterval), 60000000000)
+//@ ensures backoff-off: result0.state == StateSending && s.cfg.DisableRetransmitBackoff ==> s.retransmitInterval == min(old(s.retransmitInterval), 60000000000)
+//@ ensures no-resend-keeps-interval: result0.state != StateSending ==> s.retransmitInterval == old(s.retransmitInterval)
+//@ ensures outcomes: result0.state == StateSending || result0.state == StateWaiting || result0.state == StateFinished
+//@ ensures no-flight-change: result0.nextFlight == 0 && !result0.retainPendingRecv
+//@ end
+
+// A duplicate of the peer's previous flight (it did not get our final flight): ACK it, then the
+// same timer law decides whether the final flight goes out again.
+
+//@ func fsm13.handlePreviousFlightRetransmit
+//@ watch sendACK fsm13.transitionAfterACK handleRetransmitTimeout
+//@ requires args: s != nil && s.cfg != nil && s.state != nil && s.state.Common != nil && ownConn(conn) && !isNil(ctx)
+//@ requires interval-range: ivOK(s.retransmitInterval)
+//@ ensures acks-first: result1 == nil ==> calledBefore("sendACK", "fsm13.transitionAfterACK")
+//@ ensures ack-failure-stops: result1 != nil ==> result0.state == 0 && !called("fsm13.transitionAfterACK")
+//@ ensures resend-by-timer-law: result0.state == StateSending ==> called("fsm13.transitionAfterACK")
+//@ ensures no-resend-keeps-interval: result1 == nil && result0.state != StateSending ==> s.retransmitInterval == old(s.retransmitInterval)
+//@ ensures treated-as-peer-retransmit: result1 == nil ==> argBool("fsm13.transitionAfterACK", 2)
+//@ end
+
+// One received event (DTLS 1.3): the interval is restored to the configured initial value only
+// for an event that is not a retransmission; a retransmitted event leaves it to the timer law.
+
+//@ func fsm13.handleReceivedFlight
+//@ watch handleRetransmitTimeout fsm13.transitionAfterACK fsm13.handlePreviousFlightRetransmit fsm13.parseReceivedFlight
+//@ requires args: s != nil && s.cfg != nil && s.state != nil && s.state.Common != nil && ownConn(conn) && !isNil(ctx)
+//@ requires interval-range: ivOK(s.retransmitInterval) && ivOK(s.cfg.InitialRetransmitInterval)
+//@ ensures retransmission-does-not-reset: received.IsRetransmit && result1 == nil && result0.state != StateSending && !called("fsm13.parseReceivedFlight") ==> s.retransmitInterval == old(s.retransmitInterval)
+// [dropped: demanded more than the property - a new ACK that triggers an immediate resend of the rest of the flight
+//  restores the initial interval and then applies the timer law once (2*initial); split into the two clauses below]
+//   ensures new-data-restores-initial: !received.IsRetransmit && result1 == nil && !called("fsm13.parseReceivedFlight") ==> s.retransmitInterval == s.cfg.InitialRetransmitInterval
+//@ ensures new-data-without-resend-restores-initial: !received.IsRetransmit && result1 == nil && result0.state != StateSending && !called("fsm13.parseReceivedFlight") ==> s.retransmitInterval == s.cfg.InitialRetransmitInterval
+//@ ensures new-data-with-resend-restarts-backoff: !received.IsRetransmit && result1 == nil && result0.state == StateSending && !called("fsm13.parseReceivedFlight") && !s.cfg.DisableRetransmitBackoff ==> s.retransmitInterval == min(2*s.cfg.InitialRetransmitInterval, 60000000000)
+//@ ensures resend-by-timer-law: result0.state == StateSending && result1 == nil && !called("fsm13.parseReceivedFlight") ==> called("fsm13.transitionAfterACK") || called("fsm13.handlePreviousFlightRetransmit")
+//@ ensures ack-only-event-is-not-peer-retransmit: !received.HasHandshake && len(received.ACKs) != 0 ==> called("fsm13.transitionAfterACK") && !argBool("fsm13.transitionAfterACK", 2) && !called("fsm13.parseReceivedFlight")
+//@ ensures duplicate-final-flight: received.HasHandshake && received.IsRetransmit && old(s.currentFlight) == dtlsflight13.Flight5 && (len(received.ACKs) == 0) ==> called("fsm13.handlePreviousFlightRetransmit") && !called("fsm13.parseReceivedFlight")
+//@ end
+
+// Post-handshake flights (KeyUpdate, NewSessionTicket): same backoff law on each timer expiry.
+
+//@ func postHandshake.retransmitPostHandshakeFlight
+//@ watch Conn.WritePackets
+//@ requires args: p != nil && flight != nil && ownConn(conn) && !isNil(ctx)
+//@ requires interval-range: ivOK(flight.RetransmitInterval)
+//@ ensures sends-once: ncalls("Conn.WritePackets") == 1
+//@ ensures backoff-doubles: result == nil && !disableRetransmitBackoff ==> flight.RetransmitInterval == min(2*old(flight.RetransmitInterval), 60000000000)
+//@ ensures backoff-off: result == nil && disableRetransmitBackoff ==> flight.RetransmitInterval == old(flight.RetransmitInterval)
+//@ ensures cap-60s: result == nil && !disableRetransmitBackoff ==> flight.RetransmitInterval <= 60000000000 && flight.RetransmitInterval > 0
+//@ ensures failed-write-keeps-interval: result != nil ==> flight.RetransmitInterval == old(flight.RetransmitInterval)
+//@ end
